@@ -68,8 +68,9 @@ def run(tier, seed):
             if n % 1500 == 7:
                 run.sample({"hist": case["hist"], "strings": r["strings"], "expected_segs": case["segs"]})
             n += 1
-        from . import c01_lex
+        from . import c01_lex, c01_trace
         c01_lex.run_into(run, work, tier, seed)
+        c01_trace.run_into(run, work, tier, seed)
     finally:
         engine.cleanup(work)
     run.rule = ("cases = all distinct states of PathInterp under TLC (each state carries its command history); "
